@@ -187,6 +187,14 @@ def crafted_instances():
                          'ctrls': [ctrl2], 'stops': [], 'ops': sched(10, ctrl=0)}))
     out.append(('two_loads_free', {'elems': [motor, worm, wheel_free, out_gear], 'load': ld(c0=F(1, 1000)),
                                    'extra_loads': {2: {'c0': F(1, 100), 'c1': F(1, 1000), 'c2': F(0), 'c3': F(1, 10)}}, 'ctrls': [], 'stops': [], 'ops': sched(8, more=[run2])}))
+    # coasting: the duty cycle is inside the dead zone (driving torque exactly 0) while the load function returns exactly 0 - every
+    # net torque and every acceleration is exactly 0 although the chain is moving (three-element and five-element chains)
+    coast5 = [motor, {'kind': 'Flywheel', 'J': F(1, 10**6), 'rel': {'type': 'joint', 'arg': None}},
+              {'kind': 'SpurGear', 'J': F(1, 10**6), 'teeth': 12, 'rel': {'type': 'joint', 'arg': None}},
+              {'kind': 'SpurGear', 'J': F(1, 10**5), 'teeth': 36, 'rel': {'type': 'gear', 'arg': F(9, 10)}},
+              {'kind': 'SpurGear', 'J': F(1, 10**5), 'teeth': 15, 'rel': {'type': 'joint', 'arg': None}}]
+    for nm, chn in (('coast_zero_torque', gearpair), ('coast_zero_torque_5', coast5)):
+        out.append((nm, {'elems': chn, 'load': ld(c0=0), 'ctrls': [[const(F(5, 200), F(3, 100), 0)]], 'stops': [], 'ops': sched(10, ctrl=0, more=[run2])}))
     # a friction sweep before assembly: the same worm pair declared first self-locking then free, and the other way round
     out.append(('sweep_sl_then_free', {'elems': [motor, worm, wheel_free, out_gear], 'load': ld(c0=5), 'ctrls': [], 'stops': [], 'pre_worm': {2: F(2, 5)}, 'ops': sched(6)}))
     out.append(('sweep_free_then_sl', {'elems': sl, 'load': ld(c0=5), 'ctrls': [], 'stops': [], 'pre_worm': {2: F(1, 50)}, 'ops': sched(6)}))
